@@ -247,10 +247,11 @@ class Corr:
         if self.T % 2 != 0:
             raise ValueError("Can not symmetrize odd T")
 
-        test = 1 * self
-        test.gamma_method()
-        if not all([o.is_zero_within_error(3) for o in test.content[0]]):
-            warnings.warn("Correlator does not seem to be anti-symmetric around x0=0.", RuntimeWarning)
+        if self.content[0] is not None:
+            test = 1 * self
+            test.gamma_method()
+            if not all([o.is_zero_within_error(3) for o in test.content[0]]):
+                warnings.warn("Correlator does not seem to be anti-symmetric around x0=0.", RuntimeWarning)
 
         newcontent = [self.content[0]]
         for t in range(1, self.T):
